@@ -443,8 +443,12 @@ pub fn snapshot(env: &mut Env<VS>) -> BTreeMap<&'static str, String> {
         .functions
         .iter()
         .map(|f| {
+            // the printed body and, because the same printer produces every listing, a digest of
+            // the tree itself (Debug rendering with the source locations erased)
+            let tree = crate::props::c06::erase_locations(&format!("{:?}", f.body));
+            let digest = tree.bytes().fold(0xcbf29ce484222325u64, |h, b| (h ^ b as u64).wrapping_mul(0x100000001b3));
             format!(
-                "{}(){}{}",
+                "{}(){}#{digest:016x}{}",
                 f.name,
                 f.body,
                 if f.read_only_location.is_some() { " ro" } else { "" }
